@@ -1,5 +1,4 @@
 """Runner for in-process harnesses built on engine/cxx/verif_pbt.h (rapidcheck + libFuzzer)."""
-from vlib.common import tier_params as common_tier_params
 import glob
 
 import numpy as np
@@ -13,6 +12,7 @@ import time
 from concurrent.futures import ThreadPoolExecutor
 
 from . import build
+from .common import tier_params as common_tier_params
 from .common import BUILD, NCPU, REPLAYS, RUN, VERIF, Outcome, load_known, log, save_violation_case, sha
 
 SAN_ENV = {
